@@ -268,7 +268,8 @@ def gen_plan(seed, tier, index=0, avoid=()):
            "sigint_initial": rng.choice(("default", "default", "custom", "ign")),
            "wakeup_initial": ("wakeup_initial" not in avoid) and rng.random() < 0.25,
            "app_main": rng.random() < 0.8,
-           "pre_lines": rng.randint(0, h)}
+           "pre_lines": rng.randint(0, h),
+           "out_buffer": rng.choice(("none", "line", "block", "block"))}
     return {"prop": PROP, "seed": seed, "cfg": cfg, "tree": tree, "crash": None, "enumerate": True}
 
 
@@ -698,6 +699,9 @@ class _Exec:
             win.render_to_terminal(gen.build_array(it["rows"], False, self.term.w), tuple(it["cursor"]))
             return
         if op == "query":
+            if s.tty.attrs[3] & _termios.ICANON:
+                world.log.add("query_skipped_canonical_mode")   # (the scenario itself switched line buffering back on)
+                return
             self.objs[it["on"]].get_cursor_position()
             return
         inp = self.objs[it["on"]]
@@ -726,6 +730,8 @@ class _Exec:
         j = self.send_no
         self.send_no += 1
         data = bytes.fromhex(it["arrive"])
+        if data and (s.tty.attrs[3] & _termios.ICANON):
+            data += b"\n"       # (the scenario put the tty back into canonical mode: input is delivered by lines)
         if data:
             if it["arrive_delay"] is None:
                 kernel.arrive(s.fd, data)
@@ -818,7 +824,7 @@ def _name(h):
 def _run_one(p, keep_log):
     cfg = p["cfg"]
     s = setup.make({"h": cfg["h"], "w": cfg["w"], "tty_attrs": cfg["tty_attrs"], "tty_flags": cfg["tty_flags"],
-                    "yield_cap": 500000}, None, keep_log)
+                    "yield_cap": 500000, "out_buffer": cfg.get("out_buffer", "none")}, None, keep_log)
     world, term, kernel = s.world, s.term, s.kernel
     res = {"violation": None, "error": None, "probes": world.probes, "faults": world.faults,
            "states": set(), "nsteps": 0, "info": {"blocked_sends": [], "reading_sends": []}}
@@ -876,7 +882,12 @@ def _run_one(p, keep_log):
                 if t.exc is not None:
                     res["error"] = "app thread ended with %r" % (t.exc,)
         except Quiescent:
-            res["error"] = "scenario blocked forever (plan without a wake-up for a blocking request)"
+            if s.out.pending_out:
+                # the library waits for something while output it wrote has never been flushed to the terminal
+                _violate(res, "blocked_with_unflushed_output", ex.point,
+                         {"unflushed_output": "".join(s.out.pending_out)[:40], "out_buffer": cfg.get("out_buffer", "none")})
+            else:
+                res["error"] = "scenario blocked forever (plan without a wake-up for a blocking request)"
         except StepCap:
             res["error"] = "step cap exceeded"
         res["info"] = ex.info
